@@ -537,6 +537,7 @@ class ProgGen:
         fams["factory"] = ch.draw(4, "fam_factory") == 0
         fams["sumtypes"] = ch.draw(4, "fam_sum") == 0
         fams["ctlist"] = ch.draw(4, "fam_ctlist") == 0
+        fams["gstruct"] = ch.draw(4, "fam_gstruct") == 0
         if fams["qhelpers"]:
             self.qhelpers = True
             src += ["@guppy", f"def {prefix}qgate(q: qubit) -> None:", "    h(q)", "    x(q)", "",
@@ -610,6 +611,26 @@ class ProgGen:
                     "        acc += 1", "    return acc", ""]
             defs += [f"{prefix}opt", f"{prefix}eith", f"{prefix}sums"]
             sigs.append(FnSig(f"{prefix}sums", [("x", "int"), ("c", "bool")], "int", "sumtypes"))
+        if fams["gstruct"]:
+            # a generic struct (3.12 syntax, implicit self) with several methods,
+            # instantiated at two types: several monomorphic instances per method
+            nm = ch.rng_int(1, 3, "gs_methods")
+            meths = [("first", "", "int", "self.b"), ("second", ", d: int", "int", "self.b + d"),
+                     ("third", "", f"{prefix}GT", "self.a")][:nm]
+            src += ["@guppy.struct", f"class {prefix}GS[{prefix}GT: (Copy, Drop)]:", f"    a: {prefix}GT",
+                    "    b: int"]
+            for mname, extra, ret, body in meths:
+                src += ["    @guppy", f"    def {mname}(self{extra}) -> {ret}:", f"        return {body}"]
+            t1, t2 = ch.pick((("1.5", "True"), ("2", "0.5"), ("(1, True)", "3")), "gs_insts")
+            calls = {"first": "{v}.first()", "second": "{v}.second(2)", "third": "{v}.b"}
+            src += ["", "@guppy", f"def {prefix}usegs(x: int) -> int:", f"    gs1 = {prefix}GS({t1}, x)",
+                    f"    gs2 = {prefix}GS({t2}, x + 1)"]
+            if nm == 3:
+                src += ["    gs3 = gs1.third()"]
+            src += ["    return " + " + ".join(calls[m[0]].format(v=v) for m in meths for v in ("gs1", "gs2")),
+                    ""]
+            defs += [f"{prefix}GS", f"{prefix}usegs"]
+            sigs.append(FnSig(f"{prefix}usegs", [("x", "int")], "int", "gstruct"))
         if fams["ctlist"]:
             vals = ("[3, 1, 4]", "[1.5, 2.5]", "[[1, 2], [3, 4]]", "[\"a\", \"bb\"]",
                     "[True, False]", "[(1, 2.0), (3, 4.0)]", "[0.0, -0.0]", "[-0.0, 1.0]",
